@@ -149,6 +149,18 @@ impl EventData {
         }
     }
 
+    /// the operation ends without the selector thread having a say (cancel): its
+    /// timer must not hit a later operation on the same socket. Only the selector
+    /// thread may unlink the entry, from elsewhere it can only be disarmed
+    #[cfg(feature = "io_timeout")]
+    pub fn disarm_timer(&self) {
+        if let Some(h) = self.timer.take() {
+            unsafe {
+                h.with_mut_data(|value| value.data.event_data = std::ptr::null_mut());
+            }
+        }
+    }
+
     /// called by `subscribe` of a timed io after it stored the coroutine: if the timer
     /// armed for it fired while the slot was still empty the timeout is reported here
     #[cfg(feature = "io_timeout")]
